@@ -26,3 +26,20 @@ func init() {
 		})
 	}
 }
+
+// gogo/protobuf proto.Clone (reflection-driven deep copy): modelled as a copy of the pointed-to
+// struct value (nested slices keep their backing arrays; the cloned messages — block headers in
+// Context.BlockHeader — are not mutated afterwards by the code under test).
+func init() {
+	regSimple("github.com/gogo/protobuf/proto.Clone", func(fr *frame, args []value) value {
+		x := args[0].(iface)
+		p, ok := x.v.(*value)
+		if !ok || p == nil {
+			return x
+		}
+		fr.i.stub("proto.Clone modelled as a one-level struct copy")
+		cell := new(value)
+		*cell = copyVal(mustDeref(x.t), *p)
+		return iface{t: x.t, v: cell}
+	})
+}
